@@ -20,6 +20,7 @@ import (
 	"sort"
 	"strings"
 	"sync"
+	"sync/atomic"
 	"time"
 
 	"github.com/bytom/bytom/errors"
@@ -419,6 +420,7 @@ type probed struct {
 }
 
 type worker struct {
+	fly        *inFlight
 	base       *outcome
 	baseL      int64
 	lprog      []byte
@@ -485,9 +487,25 @@ func (w *worker) report(pl plan, prog []byte, args [][]byte, L int64, o outcome,
 	w.found[v.key] = found{v, w.rec(pl, prog, args, L, o, need)}
 }
 
+// inFlight is what the watchdog reads when a single VM run does not come back (a child VM that
+// loops without consuming gas never returns from the parent's CHECKPREDICATE step).
+type inFlight struct {
+	started atomic.Int64 // unix nanoseconds, 0 when idle
+	limit   atomic.Int64
+	mu      sync.Mutex
+	family  string
+	prog    []byte
+	args    [][]byte
+}
+
 func (w *worker) run(pl plan, prog []byte, args [][]byte, L int64) outcome {
 	w.runs++
 	w.restore(prog, args)
+	if w.fly != nil {
+		w.fly.limit.Store(L)
+		w.fly.started.Store(time.Now().UnixNano())
+		defer w.fly.started.Store(0)
+	}
 	o := runMon(w.ctx, L)
 	if w.base != nil {
 		// compared now: the stack items point into memory that the next run rewrites
@@ -539,6 +557,11 @@ func (w *worker) restore(prog []byte, args [][]byte) {
 func (w *worker) evalCase(pl plan, prog []byte, args [][]byte) {
 	w.cases++
 	w.load(prog, args)
+	if w.fly != nil {
+		w.fly.mu.Lock()
+		w.fly.family, w.fly.prog, w.fly.args = pl.family, append(w.fly.prog[:0], prog...), args
+		w.fly.mu.Unlock()
+	}
 	w.base = nil
 	// base run. Plans with quickBase first try limit 600: a program of <= 4 symbols that is still
 	// running after 64 instructions is looping, and a loop is characterised just as well by 600 gas
@@ -952,8 +975,34 @@ func main() {
 	var wg sync.WaitGroup
 	var mu sync.Mutex
 	next := 0
+	flies := make([]*inFlight, nw)
+	for i := range flies {
+		flies[i] = &inFlight{}
+	}
+	// watchdog: the longest legitimate run (300000 instructions) takes well under a second
+	const stuckAfter = 40 * time.Second
+	go func() {
+		for {
+			time.Sleep(time.Second)
+			for _, f := range flies {
+				st := f.started.Load()
+				if st == 0 || time.Since(time.Unix(0, st)) < stuckAfter {
+					continue
+				}
+				f.mu.Lock()
+				rec := caseRec{Family: f.family, Program: ev.Hex(f.prog), Disasm: disasm(f.prog), Limit: f.limit.Load()}
+				for _, a := range f.args {
+					rec.Args = append(rec.Args, ev.Hex(a))
+				}
+				run.Capped("stopped at a run that does not terminate")
+				run.Violation("run-does-not-terminate", fmt.Sprintf("one VM run under gas limit %d has been executing for more than %v (the longest legitimate run is 300000 instructions)", rec.Limit, stuckAfter), rec)
+				run.Finish()
+			}
+		}
+	}()
 	for i := 0; i < nw; i++ {
 		wg.Add(1)
+		fly := flies[i]
 		go func() {
 			defer wg.Done()
 			for {
@@ -970,8 +1019,8 @@ func main() {
 				next++
 				mu.Unlock()
 				w := newWorker()
+				w.fly = fly
 				t0 := time.Now()
-				_ = t0
 				u.run(w)
 				results[u.id] = w
 				if os.Getenv("VERIF_DEBUG") != "" {
